@@ -412,4 +412,96 @@ theorem acr_accept_doc (cmd : Nat) (raw : Bytes) : Safe (· = EIO) (acrAccept cm
       have hz' : idx f (-1) = .ok z := hz
       rw [ha, hb, hy', hz']; simp only [Py.bind_ok]
       exact Safe.ite (Safe.throw' (S := (· = EIO)) rfl) (Safe.ite (Safe.throw' (S := (· = EIO)) rfl) (Safe.pure _))
+theorem body_some {rest : Bytes} {tfi code : Nat} {data : Bytes} (h : Spec.body rest = some (tfi, code, data)) :
+    ∃ dcs, rest = tfi :: code :: (data ++ [dcs, 0]) ∧ (tfi + code + sum data + dcs) % 256 = 0 := by
+  unfold Spec.body at h
+  split at h
+  · rename_i t c more
+    split at h
+    · rename_i post dcs rdata hrev
+      simp only at h
+      split at h
+      · rename_i hc
+        simp at h
+        obtain ⟨rfl, rfl, rfl⟩ := h
+        have hm : more = rdata.reverse ++ [dcs, post] := by
+          have := congrArg List.reverse hrev
+          simpa using this
+        obtain ⟨hp, hs⟩ := hc
+        subst hp
+        exact ⟨dcs, by rw [hm], hs⟩
+      · cases h
+    · cases h
+  · cases h
+
+theorem pnBody_complete (cmd : Nat) (data : Bytes) (dcs : Nat)
+    (hs : (0xD5 + (cmd + 1) + sum data + dcs) % 256 = 0) :
+    pnBody cmd (0xD5 :: (cmd + 1) :: (data ++ [dcs, 0])) = .ok data := by
+  unfold pnBody
+  have hlen : ¬ (0xD5 :: (cmd + 1) :: (data ++ [dcs, 0])).length < 3 := by simp
+  rw [if_neg hlen, idx_last, slice_mid]
+  simp only [Py.bind_ok, idxN_cons_zero, idxN_cons_succ]
+  have hsum : sum (0xD5 :: (cmd + 1) :: (data ++ [dcs, 0])) % 256 = 0 := by
+    simp [sum_cons, sum_append]; omega
+  simp [hsum]
+
+theorem pnStrip_complete (f : Bytes) (r : Nat × Nat × Bytes) (h : Spec.parse f = some r) :
+    ∃ body, pnStrip f = .ok body ∧ Spec.body body = some r := by
+  unfold Spec.parse at h
+  split at h
+  · -- extended frame
+    rename_i lm ll lcs rest
+    split at h
+    · rename_i hc
+      refine ⟨rest, ?_, h⟩
+      obtain ⟨hsum, hlen⟩ := hc
+      unfold pnStrip
+      have hsw : startsWith (0 :: 0 :: 255 :: 255 :: 255 :: lm :: ll :: lcs :: rest) (sof ++ [255, 255]) = true := by
+        simp [startsWith, sof]
+      rw [if_pos hsw]
+      have h1 : sum (sliceN (0 :: 0 :: 255 :: 255 :: 255 :: lm :: ll :: lcs :: rest) 5 8) = lm + ll + lcs := by
+        simp [sliceN, sum]
+      rw [h1]
+      rw [if_neg (by simpa using hsum)]
+      rw [if_neg (by simp; omega)]
+      have h2 : unpackH (sliceN (0 :: 0 :: 255 :: 255 :: 255 :: lm :: ll :: lcs :: rest) 5 7) 0 = .ok (lm * 256 + ll) := by
+        simp [sliceN, unpackH]
+      rw [h2]
+      simp only [Py.bind_ok]
+      rw [if_neg (by simp; omega)]
+      simp
+    · cases h
+  · -- normal frame
+    rename_i len lcs rest hne
+    split at h
+    · rename_i hc
+      refine ⟨rest, ?_, h⟩
+      obtain ⟨hsum, hlen⟩ := hc
+      unfold pnStrip
+      have hnot : ¬ (len = 255 ∧ lcs = 255) := by
+        intro ⟨a, b⟩; subst a b; simp at hsum
+      have hsw : ¬ startsWith (0 :: 0 :: 255 :: len :: lcs :: rest) (sof ++ [255, 255]) = true := by
+        simp [startsWith, sof]
+        intro a b; exact hnot ⟨a.symm, b.symm⟩
+      rw [if_neg hsw]
+      have hsw2 : startsWith (0 :: 0 :: 255 :: len :: lcs :: rest) sof = true := by simp [startsWith, sof]
+      rw [if_pos hsw2]
+      have h1 : sum (sliceN (0 :: 0 :: 255 :: len :: lcs :: rest) 3 5) = len + lcs := by simp [sliceN, sum]
+      rw [h1, if_neg (by simpa using hsum), if_neg (by simp; omega)]
+      simp only [idxN_cons_succ, idxN_cons_zero, Py.bind_ok]
+      rw [if_neg (by simp; omega)]
+      simp
+    · cases h
+  · cases h
+
+/-- completeness: every frame the independent validator reads as `D5, cmd+1, data` is accepted -/
+theorem pn_accept_complete (cmd : Nat) (f data : Bytes) (h : Spec.parse f = some (0xD5, cmd + 1, data)) :
+    pnAccept cmd f = .ok data := by
+  obtain ⟨body, hs, hb⟩ := pnStrip_complete f _ h
+  obtain ⟨dcs, rfl, hsum⟩ := body_some hb
+  unfold pnAccept
+  rw [hs]
+  simp only [Py.bind_ok]
+  exact pnBody_complete cmd data dcs hsum
+
 end NfcVerif.HostFrame
